@@ -20,7 +20,7 @@ from ..kernel import Discard, EventLog, InjectedFault, Violation, adigest, close
 PROP = "C15"
 
 EVIDENCE = {
-    "probes_expected": ["restart-performed", "refined-twin-compared", "pseudo-elastic-unloading-point", "plastic-point", "failure-then-stop", "commit-seen", "repeat-level-compared", "retry-after-failure-compared", "step-reused-after-boundary-change"],
+    "probes_expected": ["restart-performed", "refined-twin-compared", "pseudo-elastic-unloading-point", "plastic-point", "failure-then-stop", "commit-seen", "repeat-level-compared", "retry-after-failure-compared", "step-reused-after-boundary-change", "job-evaluated-twice"],
     "clauses_sampled_only": [],
 }
 
@@ -39,6 +39,7 @@ def generate(seed, tier, k):
         "restart_drop_state": r.random() < 0.5,
         "refine": mode == 1 and r.random() < 0.6,
         "reuse_step": mode == 0 and r.random() < 0.4,
+        "evaluate_twice": mode == 0 and r.random() < 0.4,
     }
     return doc
 
@@ -57,6 +58,11 @@ class RampModel:
     def at(self, j, i):
         cur = {}
         doc = self.w.doc
+        if getattr(self.w, "pass_index", 0) > 0:
+            # the job is evaluated again: every target still carries the last value it was given
+            for s_ in doc["steps"]:
+                for r in s_.get("ramp", []):
+                    cur[r["target"]] = self.w.ramp_value(r, len(r["values"]) - 1)
         for jj in range(j):
             for r in doc["steps"][jj].get("ramp", []):
                 cur[r["target"]] = self.w.ramp_value(r, len(r["values"]) - 1)
@@ -392,6 +398,12 @@ def simulate(doc, log, monitors=True, until=None):
     x0_start = [f.values.copy() for f in kw["x0"].fields] if "x0" in kw else None
     with eng:
         job, exc = eng.run_job(**kw)
+        if doc.get("c15", {}).get("twice") and exc is None:
+            # the very same job (same Step objects, same ramp tables) evaluated a second time: every
+            # substep of the second pass applies its own ramp value again
+            w.pass_index = 1
+            mon.levels = []
+            job, exc = eng.run_job(job=job, **kw)
     if "x0" in kw and kw["x0"] is not w.field and monitors:
         # a separate x0 container is only touched by the job (linked after each converged substep;
         # the items' own container follows every Newton iterate): it holds the last converged
@@ -461,6 +473,14 @@ def run(doc, log):
     # the same Step object evaluated again after its boundary dictionary was changed -----------------
     if fault_free and exc is None and opts.get("reuse_step") and nconv >= 1 and doc["field"]["kind"] != "Mixed3":
         reuse_step_check(doc, eng, log)
+    # the same job evaluated twice ---------------------------------------------------------------------
+    if fault_free and exc is None and opts.get("evaluate_twice"):
+        d2 = copy.deepcopy(doc)
+        d2["c15"] = {"x0": opts.get("x0"), "twice": True}
+        eng2, exc2, _ = simulate(d2, EventLog(), monitors=True)
+        if exc2 is not None and not isinstance(exc2, ValueError):
+            raise exc2
+        log.count("job-evaluated-twice")
     # failure, then continuation on the SAME objects from the last converged state --------------
     if exc is not None and eng.fired and opts.get("retry", True):
         retry_check(doc, eng, exc, log)
